@@ -375,7 +375,7 @@ func bubble(c *explore.Ctx, pc *world.ProducerChain, nHeights int, fx *fixed) (o
 func TestCheck(t *testing.T) {
 	r := vf.Start("C09", "exploration")
 	nHeights := vf.Pick(r, 3, 4)
-	budgets := vf.Pick(r, map[string]int{"fetch": 2}, map[string]int{"fetch": 3})
+	budgets := vf.Pick(r, map[string]int{"fetch": 2}, map[string]int{"fetch": 2}) // thorough: one more DA height; three fetch faults on four heights (3.5 M+ executions) never completed within the tier's time
 	subs := vf.Pick(r, []byte{0x00, 0xff, 0x0a, 0x80}, nil) // nil = all 255 other values
 	r.Assume = []string{
 		"virtual time; the harness sends the retrieve signal and drains the sync input channels itself",
